@@ -19,12 +19,12 @@ func genSchedCase() *rapid.Generator[Case] {
 	return rapid.Custom(func(t *rapid.T) Case {
 		c := pre.Draw(t, "pre")
 		c.Cfg.Mem = false
-		key := func() []byte { return keys[rapid.IntRange(0, len(keys)-1).Draw(t, "key")] }
+		key := func() []byte { return keys[uni(t, len(keys), "key")] }
 		var mut []Op
 		nm := rapid.IntRange(1, 10).Draw(t, "nmut")
 		for i := 0; i < nm; i++ {
-			r := rapid.IntRange(0, 9).Draw(t, "mkind")
-			o := Op{C: rapid.IntRange(0, 1).Draw(t, "coll")}
+			r := uni(t, 10, "mkind")
+			o := Op{C: uni(t, 2, "coll")}
 			switch {
 			case r < 6:
 				o.K, o.Key, o.Prio = OpSet, key(), int32(rapid.IntRange(0, 5).Draw(t, "prio"))
@@ -46,8 +46,8 @@ func genSchedCase() *rapid.Generator[Case] {
 			var ops []Op
 			n := rapid.IntRange(1, 4).Draw(t, "nreads")
 			for i := 0; i < n; i++ {
-				o := Op{C: rapid.IntRange(0, 1).Draw(t, "coll")}
-				switch rapid.IntRange(0, 7).Draw(t, "rkind") {
+				o := Op{C: uni(t, 2, "coll")}
+				switch uni(t, 8, "rkind") {
 				case 0, 1:
 					o.K, o.Key = OpGet, key()
 				case 2:
@@ -57,7 +57,7 @@ func genSchedCase() *rapid.Generator[Case] {
 				case 4:
 					o.K = OpTotals
 				case 5, 6:
-					o.K, o.Flag = OpVisit, rapid.IntRange(0, 1).Draw(t, "dir")
+					o.K, o.Flag = OpVisit, uni(t, 2, "dir")
 					if rapid.Bool().Draw(t, "fromstart") && o.Flag == 0 {
 						o.Key = []byte{}
 					} else {
@@ -70,7 +70,20 @@ func genSchedCase() *rapid.Generator[Case] {
 			}
 			c.Cfg.Workers = append(c.Cfg.Workers, ops)
 		}
-		c.Cfg.Sched = rapid.SliceOfN(rapid.IntRange(0, 5), 0, 80).Draw(t, "sched")
+		// schedule: uniform picks among the runnable workers; in half of the cases
+		// the picks come in runs (a worker keeps the baton for a few yield points)
+		n := rapid.IntRange(0, 160).Draw(t, "schedlen")
+		runs := rapid.Bool().Draw(t, "runs")
+		for len(c.Cfg.Sched) < n {
+			pick := uni(t, 6, "pick")
+			rep := 1
+			if runs {
+				rep = 1 + uni(t, 6, "run")
+			}
+			for i := 0; i < rep && len(c.Cfg.Sched) < n; i++ {
+				c.Cfg.Sched = append(c.Cfg.Sched, pick)
+			}
+		}
 		return c
 	})
 }
